@@ -2,7 +2,9 @@
 FUNCS = ["ConfigInformation.set", "ConfigInformation.set_meta", "TypeConfig.add_pretasks",
          "ConfigInformation.seal.Sealer.preprocess", "ConfigInformation.seal.Sealer.postprocess", "HashComputer.compute"]
 LEVEL = "proof"
-TRUSTED = []
+LEVEL_TEXT = 'Deductive: ConfigInformation.set on a sealed configuration (without bypass) raises and leaves the values unchanged; set_meta and add_pretasks raise when sealed; Sealer.postprocess marks the node sealed and Sealer.preprocess stops at sealed nodes; HashComputer.compute never writes the cache. Bounded: every reachable node of enumerated sealed/submitted graphs rejects assignments (different, equal, equal-but-distinct objects), meta changes and pre-tasks; identifiers unchanged.'
+TRUSTED = ['the walk reaches every node (ML1), covered by the bounded suite', 'in-place mutation of list/dict values is outside the property', 'z3 5.1 / cvc5 1.0.3 / z3 4.8.12 and the VC generator pyvc (validated by seeded changes, pre-fix replays and the CPython replay of counterexamples; not verified)', 'Python semantics of DESIGN 2.3 (mathematical ints and reals, left-to-right evaluation, no monkey-patching, assert not compiled out)', 'heap typing: declared field/parameter classes are assumed on reads and checked on writes in the functions under contract', "contracts of externals and of callees outside the list are assumed; every ('ASSUME', ...) clause is listed in DESIGN section 11"]
+LEVEL_NOTE = 'the walk reaches every node (ML1), covered by the bounded suite; in-place mutation of list/dict values is outside the property'
 
 from bounded.wire import run_c14
 BOUNDED = [("freeze after seal/submit on enumerated graphs", run_c14)]
